@@ -149,6 +149,7 @@ fn build_compare_op(
                     #[allow(clippy::double_parens)]
                     #[allow(unused_parens)]
                     #[allow(non_snake_case)]
+                    #[allow(deprecated)]
                     impl #impl_g __AssertFieldsEq for #this_ty #wheres {
                         fn _f(__this: &Self) {
                             #body
@@ -161,6 +162,7 @@ fn build_compare_op(
 
     Ok(quote! {
         #[automatically_derived]
+        #[allow(deprecated)]
         #[allow(clippy::double_parens)]
         #[allow(unused_parens)]
         #[allow(non_snake_case)]
